@@ -401,6 +401,12 @@ COND_SHAPES = {
     "elseif":        [("if", 0, [("g", 1)], [("if", 1, [("g", 0)], [("cmp", "Lt")])])],
     "then_top":      [("if", 0, [("if", 1, [("g", 1)], None)], None), ("cmp", "Lt")],
     "top_then":      [("cmp", "Gt"), ("if", 0, [("if", 1, [("g", 1)], None), ("cmp", "Lt")], None)],
+    # Boolean composition at expression level: only a top-level conjunct may narrow
+    "or_expr":       [("bool", "Or", "Lt", "Gt2")],
+    "and_expr":      [("bool", "And", "Gt", "Lt2")],
+    "not_expr":      [("not", "Lt")],
+    "or_in_if":      [("if", 0, [("bool", "Or", "Lt", "Gt2")], [("not", "Gt")])],
+    "soft_top":      [("soft", "Lt"), ("cmp", "Gt")],
 }
 
 
@@ -410,7 +416,7 @@ COND_SHAPES = {
            "vsc.visitors.variable_bound_visitor.VariableBoundVisitor.visit_expr_bin",
            "vsc.visitors.variable_bound_visitor.VariableBoundVisitor.visit_expr_in"],
           lambda tier, seed: [(nm,) for nm in sorted(COND_SHAPES)], max_paths=20000,
-          note="bound inference over blocks with conditionals (11 statement trees: if, if/else, implies, nesting in then / else "
+          note="bound inference over blocks with conditionals and Boolean composition (16 statement trees: or / and / not expressions, soft, if, if/else, implies, nesting in then / else "
                "branches, statements after a nested conditional, else-if chain, unconditional statements before/after); 8-bit "
                "unsigned fields, symbolic bounds; Sound: every value of a in a solution of the block (R-EXPR) is in the domain")
 def c_conditional(c, name):
@@ -428,6 +434,9 @@ def c_conditional(c, name):
     from vsc.model.expr_fieldref_model import ExprFieldRefModel
     from vsc.model.expr_literal_model import ExprLiteralModel
     from vsc.model.bin_expr_type import BinExprType
+    from vsc.model.expr_unary_model import ExprUnaryModel
+    from vsc.model.unary_expr_type import UnaryExprType
+    from vsc.model.constraint_soft_model import ConstraintSoftModel
     from vsc.visitors.variable_bound_visitor import VariableBoundVisitor
     W = 8
     root = FieldCompositeModel("o", True)
@@ -456,6 +465,23 @@ def c_conditional(c, name):
             elif t[0] == "in":
                 out.append(ConstraintExprModel(ExprInModel(A, ExprRangelistModel([ExprRangeModel(lit(k), lit(k2))]))))
                 truth.append(And(xa >= k, xa <= k2))
+            elif t[0] in ("bool", "not", "soft"):
+                def rel(nm):
+                    kk = k2 if nm.endswith("2") else k
+                    op = nm.rstrip("2")
+                    return (ExprBinModel(A, BinExprType[op], lit(kk)),
+                            {"Lt": xa < kk, "Le": xa <= kk, "Gt": xa > kk, "Ge": xa >= kk, "Eq": xa == kk}[op])
+                if t[0] == "bool":
+                    (e1, t1), (e2, t2) = rel(t[2]), rel(t[3])
+                    out.append(ConstraintExprModel(ExprBinModel(e1, BinExprType[t[1]], e2)))
+                    truth.append(Or(t1, t2) if t[1] == "Or" else And(t1, t2))
+                elif t[0] == "not":
+                    e1, t1 = rel(t[1])
+                    out.append(ConstraintExprModel(ExprUnaryModel(UnaryExprType.Not, e1)))
+                    truth.append(Not(t1))
+                else:
+                    e1, t1 = rel(t[1])
+                    out.append(ConstraintSoftModel(e1))      # a soft statement never restricts the solution set
             elif t[0] == "g":
                 out.append(ConstraintExprModel(guard(t[1])))
                 truth.append(xg[t[1]] == 0)
